@@ -39,26 +39,34 @@ PatchSpec = Union[AssignSpec, MonkeyPatchSpec]
 
 @contextmanager
 def apply_patches(specs: list[PatchSpec]) -> Iterator[None]:
-    applied: list[Tuple[Any, str, Any]] = []
+    applied: list[Tuple[Any, str, Any, bool]] = []
     try:
         for s in specs:
             tgt = _resolve(s.target)
             orig = getattr(tgt, s.attr, _MISSING)
+            # An attribute the target only inherits must be restored by deleting
+            # the patch, not by writing the inherited value into the target: the
+            # value seen now may itself be a patched parent attribute.
+            try:
+                owned = s.attr in vars(tgt)
+            except TypeError:
+                owned = True
             if isinstance(s, AssignSpec):
                 setattr(tgt, s.attr, s.value)
             else:  # MonkeyPatchSpec
                 new_val = s.make_value(None if orig is _MISSING else orig)
                 setattr(tgt, s.attr, new_val)
-            applied.append((tgt, s.attr, orig))
+            applied.append((tgt, s.attr, orig, owned))
         yield
     finally:
         # unwind in reverse order
-        for tgt, attr, orig in reversed(applied):
-            if orig is _MISSING:
+        for tgt, attr, orig, owned in reversed(applied):
+            if orig is _MISSING or not owned:
                 try:
                     delattr(tgt, attr)
                 except Exception:
                     # if delete_if_missing False, leave as-is
-                    pass
+                    if orig is not _MISSING:
+                        setattr(tgt, attr, orig)
             else:
                 setattr(tgt, attr, orig)
